@@ -189,7 +189,7 @@ func load(h *Harness) *loaded {
 }
 
 func (l *loaded) newEngine(h *Harness, params []int, model map[string]string) (*Engine, *State) {
-	e := &Engine{prog: l.prog, pkg: l.pkg, info: map[*ssa.Function]*fnInfo{}, globals: map[*ssa.Global]int{},
+	e := &Engine{assumeSites: map[string][2]int{}, prog: l.prog, pkg: l.pkg, info: map[*ssa.Function]*fnInfo{}, globals: map[*ssa.Global]int{},
 		named: map[string]BytesV{}, unwind: h.unwind(), funcs: map[string]int{}, solver: theSolver, params: params,
 		linked: l.linked, names: h.Link, callers: []int{-1}, sigWho: map[int]*T{}, sigMsg: map[int]BytesV{},
 		sigMembers: []string{"m0", "m1", "m2"}, txTime: t0var(), model: model,
@@ -355,6 +355,14 @@ func runJob(h *Harness, params []int, tier string) *JobResult {
 			"feasibility_queries": e.stats.feas, "assertion_cover_queries": e.stats.queries, "tx_outcomes": e.stats.paths,
 			"solver_calls": e.solver.count, "solver_unknown": e.solver.unknown, "instructions": e.stats.instrs}
 		res.UnwindHit = e.unwindHit
+		var dead []string
+		for site, c := range e.assumeSites {
+			if c[0] > 0 && c[1] == 0 {
+				dead = append(dead, fmt.Sprintf("assumption at %s holds on none of the %d paths that reach it: nothing after it was explored, the obligations behind it are undecided", site, c[0]))
+			}
+		}
+		sort.Strings(dead)
+		res.Inconclusive = append(res.Inconclusive, dead...)
 		for _, u := range e.unwindHit {
 			res.Inconclusive = append(res.Inconclusive, u)
 		}
